@@ -1,6 +1,6 @@
 //! C15 correspondence harness: process a synthesized dump (the C14 generator, plus hostile names
 //! and symbol files), call the real `ProcessState::print_json` (compact and pretty) and print
-//!   F <facts of the ProcessState's public fields>\tV <modelled view of the real JSON, compact>\tJ <hex compact bytes>\tP <hex pretty bytes>\tC <f32::to_bits of each bit flip's confidence>
+//!   F <facts of the ProcessState's public fields>\tV <view of the real JSON, compact>\tJ <hex compact bytes>\tP <hex pretty bytes>\tC <f32::to_bits of each bit flip's confidence>
 //!
 //! case: <C14 case> X TN <k> {hex}*k MN <m> {hex}*m UN <u> {hex}*u SYM <q> {modidx hex}*q
 //!   TN thread names (N entry j uses TN[j % k]); MN / UN code_file of module / unloaded module i
@@ -13,13 +13,21 @@
 //!   text of the Linux cpuinfo / lsb-release streams; then LIMITS <hex|-> SOFT <hex|-> MAPS <hex|-> = text of the
 //!   /proc/self/limits, soft-errors (JSON) and /proc/self/maps streams; then RAW <k> {addr hex}*k = further raw memory regions,
 //!   HANDLES <n> {handle type-hex name-hex}*n = handle data stream, BOOTARGS <hex|-> = macOS boot-args stream.
+//!   optional last section: ST <k> {directive}*k = overrides applied to the ProcessState after processing and before
+//!   print_json / facts (hex = UTF-8 bytes, "-" = empty string or None as stated):
+//!     assert <hex> | cert <hex name> <hex subject> | stat <hex name> <url hex|-> <loaded 0|1> <corrupt 0|1> <debug_file hex|-> <breakpad id|->
+//!     | req <n|-> | trust <t> <f> <0..6> | lasterr <t> <u32> | mac <n> {<thread> <dialog_mode> <abort_cause> <module hex|-> <message hex|->
+//!     <signature hex|-> <backtrace hex|-> <message2 hex|->}*n | limit <hex name> <e|u|n> <e|u|n> <hex unit|-> | pid <n|->
+//!     | inl <t> <f> <hex function> <hex file|-> <line n|-> | nobootargs
+//!   V = the whole parsed document re-rendered by serde_json::to_string minus the top-level member soft_errors and the
+//!   confidence of every crash_info.possible_bit_flips element.
 #[path = "c14.rs"]
 #[allow(dead_code)]
 mod c14;
 
 use minidump::system_info::PointerWidth;
 use minidump::*;
-use serde_json::{json, Map, Value};
+use serde_json::Value;
 use std::collections::HashMap;
 use vharness::*;
 
@@ -35,13 +43,6 @@ fn ostr(s: Option<&str>) -> String {
 fn onum<T: std::fmt::Display>(v: Option<T>) -> String {
     v.map(|x| x.to_string()).unwrap_or("-".into())
 }
-fn basename(f: &str) -> &str {
-    match f.rfind(['/', '\\']) {
-        None => f,
-        Some(i) => &f[(i + 1)..],
-    }
-}
-
 fn utf8_arg(t: &str) -> String {
     String::from_utf8(unhex(t)).expect("utf8 in case")
 }
@@ -176,15 +177,87 @@ fn facts(state: &minidump_processor::ProcessState) -> String {
             None => f.push("LSB -".into()),
         }
         f.push(format!("MAPC {}", onum(state.linux_memory_map_count)));
-        f.push(format!("CERT {}", (!state.cert_info.is_empty()) as u8));
+    }
+    f.push(format!("CERTS {}", state.cert_info.len()));
+    // sorted by name: the F field stays the same from run to run (HashMap iteration order is per-process random)
+    let mut certs: Vec<(&String, &String)> = state.cert_info.iter().collect();
+    certs.sort();
+    for (name, subject) in certs {
+        f.push(format!("{} {}", hexstr(name), hexstr(subject)));
+    }
+    f.push(format!("STATS {}", state.symbol_stats.len()));
+    let mut stats: Vec<(&String, &minidump_unwind::SymbolStats)> = state.symbol_stats.iter().collect();
+    stats.sort_by(|a, b| a.0.cmp(b.0));
+    for (name, st) in stats {
+        f.push(format!(
+            "{} {} {} {} {}",
+            hexstr(name),
+            ostr(st.symbol_url.as_deref()),
+            st.loaded_symbols as u8,
+            st.corrupt_symbols as u8,
+            match &st.extra_debug_info {
+                Some(info) => format!("X {} {}", hexstr(&info.debug_file), hexstr(&info.debug_identifier.breakpad().to_string())),
+                None => "-".to_string(),
+            }
+        ));
+    }
+    f.push(format!("ASSERT {}", ostr(state.assertion.as_deref())));
+    match &state.linux_proc_limits {
+        None => f.push("LIMITS -".into()),
+        Some(l) => {
+            let lim = |x: &minidump_processor::Limit| match x {
+                minidump_processor::Limit::Error => "e".to_string(),
+                minidump_processor::Limit::Unlimited => "u".to_string(),
+                minidump_processor::Limit::Limited(n) => n.to_string(),
+            };
+            f.push(format!("LIMITS {}", l.limits.len()));
+            for (name, v) in &l.limits {
+                f.push(format!("{} {} {} {}", hexstr(name), lim(&v.soft), lim(&v.hard), hexstr(&v.unit)));
+            }
+        }
+    }
+    match &state.mac_crash_info {
+        None => f.push("MAC -".into()),
+        Some(recs) => {
+            f.push(format!("MAC {}", recs.len()));
+            for r in recs {
+                f.push(format!(
+                    "{} {} {} {} {} {} {} {}",
+                    onum(r.thread().copied()),
+                    onum(r.dialog_mode().copied()),
+                    onum(r.abort_cause().copied()),
+                    ostr(r.module_path()),
+                    ostr(r.message()),
+                    ostr(r.signature_string()),
+                    ostr(r.backtrace()),
+                    ostr(r.message2())
+                ));
+            }
+        }
+    }
+    f.push(format!("BOOT {}", ostr(state.mac_boot_args.as_ref().and_then(|b| b.bootargs.as_deref()))));
+    match &state.handles {
+        None => f.push("HANDLES -".into()),
+        Some(hs) => {
+            f.push(format!("HANDLES {}", hs.iter().count()));
+            for h in hs.iter() {
+                f.push(format!("{} {} {}", onum(h.raw.handle().copied()), ostr(h.type_name.as_deref()), ostr(h.object_name.as_deref())));
+            }
+        }
     }
     f.push(format!("TH {}", state.threads.len()));
     for t in &state.threads {
-        f.push(format!("{} {} NF {}", t.thread_id, ostr(t.thread_name.as_deref()), t.frames.len()));
+        f.push(format!(
+            "{} {} {} NF {}",
+            t.thread_id,
+            ostr(t.thread_name.as_deref()),
+            ostr(t.last_error_value.map(|e| e.to_string()).as_deref()),
+            t.frames.len()
+        ));
         for fr in &t.frames {
             f.push(fr.instruction.to_string());
             match &fr.module {
-                Some(m) => f.push(format!("{} {}", hexstr(basename(&m.name)), m.raw.base_of_image)),
+                Some(m) => f.push(format!("{} {}", hexstr(&m.name), m.raw.base_of_image)),
                 None => f.push("-".into()),
             }
             f.push(ostr(fr.function_name.as_deref()));
@@ -205,14 +278,20 @@ fn facts(state: &minidump_processor::ProcessState) -> String {
             );
             f.push(format!("UNL {}", fr.unloaded_modules.len()));
             for (name, offs) in &fr.unloaded_modules {
-                f.push(format!("{} K {} {}", hexstr(name), offs.len(), offs.iter().map(|o| o.to_string()).collect::<Vec<_>>().join(" ")));
+                let mut toks = vec![hexstr(name), "K".to_string(), offs.len().to_string()];
+                toks.extend(offs.iter().map(|o| o.to_string()));
+                f.push(toks.join(" "));
+            }
+            f.push(format!("INL {}", fr.inlines.len()));
+            for i in &fr.inlines {
+                f.push(format!("{} {} {}", hexstr(&i.function_name), ostr(i.source_file_name.as_deref()), onum(i.source_line)));
             }
         }
     }
     // registers of the requesting thread's frame 0, sorted by name (serde_json's Map is a BTreeMap)
     let mut regs: Vec<(String, u64, usize)> = vec![];
     if let Some(i) = state.requesting_thread {
-        if let Some(fr) = state.threads[i].frames.first() {
+        if let Some(fr) = state.threads.get(i).and_then(|t| t.frames.first()) {
             let ctx = &fr.context;
             for &r in ctx.general_purpose_registers() {
                 let valid = match &ctx.valid {
@@ -234,85 +313,191 @@ fn facts(state: &minidump_processor::ProcessState) -> String {
     }
     f.push(format!("MODS {}", state.modules.iter().count()));
     for m in state.modules.iter() {
-        let full = m.code_file();
-        f.push(format!("{} {} {}", m.raw.base_of_image, m.raw.size_of_image, hexstr(basename(&full))));
+        f.push(format!(
+            "{} {} {} {} {} {} {}",
+            m.raw.base_of_image,
+            m.raw.size_of_image,
+            hexstr(&m.code_file()),
+            hexstr(&m.debug_file().unwrap_or_default()),
+            hexstr(&m.debug_identifier().unwrap_or_default().breakpad().to_string()),
+            hexstr(m.code_identifier().unwrap_or_default().as_str()),
+            ostr(m.version().as_deref())
+        ));
     }
     f.push(format!("UNLM {}", state.unloaded_modules.iter().count()));
     for m in state.unloaded_modules.iter() {
-        f.push(format!("{} {} {}", m.raw.base_of_image, m.raw.size_of_image, hexstr(&m.name)));
+        f.push(format!(
+            "{} {} {} {}",
+            m.raw.base_of_image,
+            m.raw.size_of_image,
+            hexstr(&m.name),
+            hexstr(m.code_identifier().unwrap_or_default().as_str())
+        ));
     }
     f.join(" ")
 }
 
-fn pick(v: &Value, keys: &[&str]) -> Value {
-    let mut m = Map::new();
-    for k in keys {
-        m.insert(k.to_string(), v.get(*k).cloned().unwrap_or(json!("<absent>")));
-    }
-    Value::Object(m)
-}
-
-const FRAME_KEYS: [&str; 11] = [
-    "file", "frame", "function", "function_offset", "line", "missing_symbols", "module", "module_offset", "offset", "trust",
-    "unloaded_modules",
-];
-
-fn view_frame(f: &Value, with_registers: bool) -> Value {
-    let mut o = pick(f, &FRAME_KEYS);
-    if with_registers {
-        o.as_object_mut().unwrap().insert("registers".into(), f.get("registers").cloned().unwrap_or(json!("<absent>")));
-    }
-    o
-}
-fn view_thread(t: &Value, copy: bool) -> Value {
-    let mut o = pick(t, &["frame_count", "thread_id", "thread_name"]);
-    let frames: Vec<Value> = t
-        .get("frames")
-        .and_then(|f| f.as_array())
-        .map(|a| a.iter().enumerate().map(|(i, f)| view_frame(f, copy && i == 0)).collect())
-        .unwrap_or_default();
-    o.as_object_mut().unwrap().insert("frames".into(), Value::Array(frames));
-    if copy {
-        o.as_object_mut().unwrap().insert("threads_index".into(), t.get("threads_index").cloned().unwrap_or(json!("<absent>")));
-    }
-    o
-}
-fn view_module(m: &Value) -> Value {
-    pick(m, &["base_addr", "end_addr", "filename"])
-}
-
-/// The fields the model covers, rebuilt from the parsed real output.
+/// The whole parsed document minus `soft_errors` (a serde_json::Value passed through from the dump) and the
+/// binary32 `confidence` of every reported bit flip (serde_json's float writer; compared separately, field C).
 fn view(v: &Value) -> Value {
-    let mut o = Map::new();
-    let mut ci = v.get("crash_info").cloned().unwrap_or(Value::Null);
-    // the binary32 confidence is not modelled (serde_json's float writer)
-    if let Some(fl) = ci.get_mut("possible_bit_flips").and_then(|x| x.as_array_mut()) {
+    let mut o = v.clone();
+    if let Some(m) = o.as_object_mut() {
+        m.remove("soft_errors");
+    }
+    if let Some(fl) = o.get_mut("crash_info").and_then(|ci| ci.get_mut("possible_bit_flips")).and_then(|x| x.as_array_mut()) {
         for b in fl {
             if let Some(m) = b.as_object_mut() {
                 m.remove("confidence");
             }
         }
     }
-    o.insert("crash_info".into(), ci);
-    for k in ["linux_memory_map_count", "lsb_release", "main_module", "modules_contains_cert_info", "status", "system_info"] {
-        o.insert(k.into(), v.get(k).cloned().unwrap_or(json!("<absent>")));
+    o
+}
+
+fn opt_utf8(t: &str) -> Option<String> {
+    if t == "-" {
+        None
+    } else {
+        Some(utf8_arg(t))
     }
-    if let Some(ct) = v.get("crashing_thread") {
-        o.insert("crashing_thread".into(), view_thread(ct, true));
+}
+fn opt_num<T: std::str::FromStr>(t: &str) -> Option<T> {
+    if t == "-" {
+        None
+    } else {
+        Some(t.parse::<T>().ok().expect("number in ST directive"))
     }
-    let arr = |k: &str, f: &dyn Fn(&Value) -> Value| -> Value {
-        Value::Array(v.get(k).and_then(|a| a.as_array()).map(|a| a.iter().map(|x| f(x)).collect()).unwrap_or_default())
-    };
-    o.insert("modules".into(), arr("modules", &view_module));
-    o.insert("pid".into(), v.get("pid").cloned().unwrap_or(json!("<absent>")));
-    o.insert("thread_count".into(), v.get("thread_count").cloned().unwrap_or(json!("<absent>")));
-    o.insert("threads".into(), arr("threads", &|t| view_thread(t, false)));
-    o.insert("unloaded_modules".into(), arr("unloaded_modules", &view_module));
-    Value::Object(o)
+}
+
+/// Apply the `ST` directives to the processed state.
+fn apply_overrides(state: &mut minidump_processor::ProcessState, x: &mut Toks) {
+    use minidump::format as md;
+    use minidump_processor::{Limit, LinuxProcLimit, LinuxProcLimits};
+    let k = x.usize();
+    for _ in 0..k {
+        let d = x.str();
+        match d {
+            "assert" => state.assertion = Some(utf8_arg(x.str())),
+            "cert" => {
+                let name = utf8_arg(x.str());
+                let subject = utf8_arg(x.str());
+                state.cert_info.insert(name, subject);
+            }
+            "stat" => {
+                let name = utf8_arg(x.str());
+                let symbol_url = opt_utf8(x.str());
+                let loaded_symbols = x.str() == "1";
+                let corrupt_symbols = x.str() == "1";
+                let dfile = x.str();
+                let did = x.str();
+                let extra_debug_info = if dfile != "-" {
+                    Some(breakpad_symbols::DebugInfoResult {
+                        debug_file: utf8_arg(dfile),
+                        debug_identifier: if did == "-" {
+                            debugid::DebugId::default()
+                        } else {
+                            debugid::DebugId::from_breakpad(did).expect("breakpad debug id in stat directive")
+                        },
+                    })
+                } else {
+                    None
+                };
+                state.symbol_stats.insert(name, minidump_unwind::SymbolStats { symbol_url, loaded_symbols, corrupt_symbols, extra_debug_info });
+            }
+            "req" => state.requesting_thread = opt_num::<usize>(x.str()),
+            "trust" => {
+                let (t, fi, v) = (x.usize(), x.usize(), x.usize());
+                use minidump_unwind::FrameTrust::*;
+                let tr = match v {
+                    0 => None,
+                    1 => Scan,
+                    2 => CfiScan,
+                    3 => FramePointer,
+                    4 => CallFrameInfo,
+                    5 => PreWalked,
+                    6 => Context,
+                    _ => panic!("trust directive: value {} out of 0..6", v),
+                };
+                if let Some(fr) = state.threads.get_mut(t).and_then(|th| th.frames.get_mut(fi)) {
+                    fr.trust = tr;
+                }
+            }
+            "lasterr" => {
+                let t = x.usize();
+                let code = x.u64() as u32;
+                if let Some(th) = state.threads.get_mut(t) {
+                    th.last_error_value = Some(CrashReason::from_windows_error(code));
+                }
+            }
+            "mac" => {
+                let n = x.usize();
+                let mut recs = vec![];
+                for _ in 0..n {
+                    let (thread, dialog_mode, abort_cause) = (x.u64(), x.u64(), x.u64());
+                    let module_path = utf8_arg(x.str());
+                    let message = utf8_arg(x.str());
+                    let signature_string = utf8_arg(x.str());
+                    let backtrace = utf8_arg(x.str());
+                    let message2 = utf8_arg(x.str());
+                    recs.push(RawMacCrashInfo::V5(
+                        md::MINIDUMP_MAC_CRASH_INFO_RECORD_5 {
+                            stream_type: md::MINIDUMP_STREAM_TYPE::MozMacosCrashInfoStream as u64,
+                            version: 5,
+                            thread,
+                            dialog_mode,
+                            abort_cause,
+                        },
+                        md::MINIDUMP_MAC_CRASH_INFO_RECORD_STRINGS_5 { module_path, message, signature_string, backtrace, message2 },
+                    ));
+                }
+                state.mac_crash_info = Some(recs);
+            }
+            "limit" => {
+                let name = utf8_arg(x.str());
+                let lim = |t: &str| match t {
+                    "e" => Limit::Error,
+                    "u" => Limit::Unlimited,
+                    n => Limit::Limited(n.parse::<u64>().expect("limit value")),
+                };
+                let soft = lim(x.str());
+                let hard = lim(x.str());
+                let unit = utf8_arg(x.str());
+                state
+                    .linux_proc_limits
+                    .get_or_insert_with(|| LinuxProcLimits { limits: HashMap::new() })
+                    .limits
+                    .insert(name, LinuxProcLimit { soft, hard, unit });
+            }
+            "pid" => state.process_id = opt_num::<u32>(x.str()),
+            "inl" => {
+                let (t, fi) = (x.usize(), x.usize());
+                let function_name = utf8_arg(x.str());
+                let source_file_name = opt_utf8(x.str());
+                let source_line = opt_num::<u32>(x.str());
+                if let Some(fr) = state.threads.get_mut(t).and_then(|th| th.frames.get_mut(fi)) {
+                    fr.inlines.push(minidump_unwind::InlineFrame { function_name, source_file_name, source_line });
+                }
+            }
+            "nobootargs" => {
+                if let Some(b) = state.mac_boot_args.as_mut() {
+                    b.bootargs = None;
+                }
+            }
+            other => panic!("unknown ST directive {:?}", other),
+        }
+    }
+    if let Some(extra) = x.opt() {
+        panic!("trailing token {:?} after the ST section", extra);
+    }
 }
 
 fn run(line: &str) -> String {
     let (base, ext) = line.split_once(" X ").expect("X section");
+    // the token ST cannot occur elsewhere in the X section (keywords, numbers and lower-case hex only)
+    let (ext, st_section) = match ext.split_once(" ST ") {
+        Some((a, b)) => (a, Some(b)),
+        None => (ext, None),
+    };
     let mut t = Toks::new(base);
     let mut c = c14::parse_case(&mut t);
     let mut x = Toks::new(ext);
@@ -411,7 +596,10 @@ fn run(line: &str) -> String {
             i += 1;
         }
     }
-    let state = c14::process(bytes, symbols);
+    let mut state = c14::process(bytes, symbols);
+    if let Some(st) = st_section {
+        apply_overrides(&mut state, &mut Toks::new(st));
+    }
     let mut compact: Vec<u8> = vec![];
     state.print_json(&mut compact, false).expect("print_json compact");
     let mut pretty: Vec<u8> = vec![];
